@@ -155,7 +155,7 @@ def h_detect(stublen, marker, good_size, mach, nonce_fixed=None, maxrange=None):
 
 
 def h_lemma(N, k):
-    """lemma behind the cut used by the reject instances: over a file of N < 88 bytes a view at any nonce offset
+    """lemma behind the cut used by the reject instances: over a file of N < 64 bytes a view at any nonce offset
     cannot contain a DOS header plus file header, so pe.find_mz_offset returns None (one obligation per (N, k))"""
     def body(ctx):
         data = sym_bytes("file", N)
